@@ -128,19 +128,35 @@ def total_ob(family, which, call, regime, xcase, expected_fn, mcase=None, mixed=
                 elif r.status != 'unsat':
                     return Verdict('unknown', r.backend, time.time() - t0, 'value comparison undecided', sample=sample)
             if bad:
-                rr = real_exec(snippet, point)
-                got = rr.get('result', {}).get('got') if rr.get('ok') else None
-                exp_num = None
-                confirmed = (not rr.get('ok')) or isinstance(got, str)
-                if not confirmed and expected is not None and got is not None:
-                    from pfv import evalc
-                    try:
-                        exp_num = float(evalc.evaluate(expected, {k_: __import__('fractions').Fraction(val_).limit_denominator(10**9) for k_, val_ in point.items()}))
-                        confirmed = abs(got - exp_num) > 1e-9
-                    except Exception:
-                        pass
+                # candidate inputs: a solver model of the failing sign sub-case first (it may sit on a boundary such as m = 0), then the fixed point of the case
+                cands = []
+                try:
+                    rm = smt.check_sat(list(hy) + list(hyps_), timeout_ms=10000, want_model=True)
+                    if rm.status == 'sat' and rm.model and not mixed:
+                        pm = dict(point)
+                        for k_ in ('x', 't', 'v', 'm', 'K'):
+                            if k_ in rm.model:
+                                pm[k_] = float(rm.model[k_])
+                        cands.append(pm)
+                except Exception:
+                    pass
+                cands.append(point)
+                for pt in cands:
+                    rr = real_exec(snippet, pt)
+                    got = rr.get('result', {}).get('got') if rr.get('ok') else None
+                    exp_num = None
+                    confirmed = (not rr.get('ok')) or isinstance(got, str) or (got is not None and got != got)
+                    if not confirmed and expected is not None and got is not None:
+                        from pfv import evalc
+                        try:
+                            exp_num = float(evalc.evaluate(expected, {k_: __import__('fractions').Fraction(val_).limit_denominator(10**9) for k_, val_ in pt.items()}))
+                            confirmed = abs(got - exp_num) > 1e-9
+                        except Exception:
+                            pass
+                    if confirmed:
+                        break
                 return Verdict('refuted', 'extreal+z3', time.time() - t0, '%s at %s: %s' % (call_expr(family, which, call), tag, bad),
-                               witness={'point': point, 'real_value': got, 'expected': exp_num}, sample=sample,
+                               witness={'point': pt, 'real_value': got, 'expected': exp_num}, sample=sample,
                                replay={'real': rr, 'confirmed': bool(confirmed)})
         return Verdict('proved', 'extreal+z3', time.time() - t0, '%d sign sub-case(s), all finite' % len(cs), sample=sample)
     return Obligation(oid, 'post', F_ + 'bs_%s_%s' % (family, which), check, [PROP],
@@ -167,8 +183,30 @@ def raises_ob(family, which, call, neg):
         if paths and all(o == 'raises:ValueError' for o in outs):
             return Verdict('proved', 'path-exploration+z3', time.time() - t0, '%d path(s), all raise ValueError' % len(paths), sample=sample)
         if any(o == 'returns' for o in outs):
-            rr = real_exec(snippet, point)
-            return Verdict('refuted', 'path-exploration+z3', time.time() - t0, 'a path returns a value for %s' % neg, witness={'point': point}, sample=sample,
+            # an input on which the function returns although the argument is negative: a model of a returning path's condition
+            pt = dict(point)
+            for p_ in paths:
+                if p_.outcome() != 'returns':
+                    continue
+                rm = smt.check_sat(p_.facts(hyps), timeout_ms=10000, want_model=True)
+                if rm.status == 'sat' and rm.model:
+                    try:
+                        for k_ in ('x', 't', 'v', 'm', 'K'):
+                            if k_ in rm.model:
+                                pt[k_] = float(rm.model[k_])
+                    except Exception:
+                        pt = dict(point)
+                    break
+            rr = real_exec(snippet, pt)
+            if not rr.get('ok'):
+                rr0 = rr
+                rr = real_exec(snippet, point)
+                if not rr.get('ok'):
+                    rr = rr0
+                else:
+                    pt = dict(point)
+            point_used = pt
+            return Verdict('refuted', 'path-exploration+z3', time.time() - t0, 'a path returns a value for %s' % neg, witness={'point': point_used}, sample=sample,
                            replay={'real': rr, 'confirmed': bool(rr.get('ok'))})
         return Verdict('unknown', 'engine', time.time() - t0, 'paths: %s' % [(p.outcome(), str(p.exception)[:100]) for p in paths], sample=sample)
     tag = ('call,' if call else 'put,') if call is not None else ''
